@@ -39,6 +39,8 @@ type Engine struct {
 	panics      map[*ssa.Function]bool
 	tables      map[*ssa.Global][]*ssa.Const
 	scalars     map[*ssa.Global]*ssa.Const
+	initExprs   map[*ssa.Global]*initExpr
+	allBaseline map[string]bool
 	scalarSeen  map[*ssa.Global]bool
 	renamedBare map[string]string // functions under contract that were renamed: old bare name -> new bare name
 	renamedNew  map[string]string // new funcName -> old funcName (for baseline lookups)
@@ -196,8 +198,13 @@ func (e *Engine) paramTarget(fr *frame, i int, names ModSet) {
 func (e *Engine) callMods(c *ssa.CallCommon, fr *frame) ModSet {
 	res := ModSet{}
 	if name := fr.builderCallName(c); name != "" {
-		if m := c.StaticCallee().Name(); m != "String" && m != "Len" {
-			res[name] = types.Typ[types.String]
+		if m := c.StaticCallee().Name(); m != "String" {
+			// content, and the two cells that remember where Len() was last taken (builderCall)
+			if m != "Len" {
+				res[name] = types.Typ[types.String]
+			}
+			res[name+"#m"] = types.Typ[types.String]
+			res[name+"#s"] = types.Typ[types.String]
 		}
 		return res
 	}
